@@ -59,7 +59,8 @@ TEnd == /\ IsEvent("end") /\ UNCHANGED spVars /\ snap0' = Ev.snap
         /\ Note(<< <<"end.stage_per_line", Ev.obs.nstages = Len(stages)>>,
                    <<"end.errors", Ev.obs.errs = errs>>,
                    <<"end.measure_index", Ev.obs.mst = mstarts>>,
-                   <<"end.shape", Ev.obs.shape = [s \in 1..Len(stages) |-> Len(stages[s])]>> >>)
+                   <<"end.shape", Ev.obs.shape = [s \in 1..Len(stages) |-> Len(stages[s])]>>,
+                   <<"end.two_imports_indistinguishable", "snap2" \in DOMAIN Ev => Ev.snap2 = Ev.snap>> >>)
 
 \* kernpy.loads raised on input the generator built to be well-formed
 TImportFailed == /\ IsEvent("import_failed") /\ UNCHANGED spVars /\ UNCHANGED snap0
